@@ -15,7 +15,6 @@ import (
 	"sort"
 	"strconv"
 	"strings"
-	"sync"
 	"time"
 
 	"golang.org/x/tools/go/packages"
@@ -200,6 +199,8 @@ func (in *Interp) resetPath() {
 	in.chanSeq = 0
 	in.hook = map[string]value{}
 	in.clockLast = nil
+	in.loopSpecs = map[string]*loopSpec{}
+	in.loopPost = map[string]value{}
 	in.regexps = map[*value]string{}
 	in.clockLo, in.clockHi = nil, nil
 	in.clockN = 0
@@ -381,7 +382,7 @@ func (in *Interp) markReached(label string, model map[string]uint64) {
 	memo := map[int]uint64{}
 	ev := map[int]bool{}
 	for k, t := range in.observes {
-		if in.tt.evaluable(t, ev) {
+		if in.tt.evaluable(t, ev, model) {
 			obs[k] = in.tt.Eval(t, model, memo)
 		}
 	}
@@ -419,7 +420,7 @@ func (in *Interp) reportViolation(fr *frame, label, kind, detail string, model m
 	memo := map[int]uint64{}
 	ev := map[int]bool{}
 	for k, t := range in.observes {
-		if in.tt.evaluable(t, ev) {
+		if in.tt.evaluable(t, ev, model) {
 			v.Observe[k] = strconv.FormatUint(in.tt.Eval(t, model, memo), 10)
 		}
 	}
@@ -618,71 +619,13 @@ func main() {
 		os.Exit(2)
 	}
 	loadS := time.Since(t0).Seconds()
-	initPkgs := initPackages(l.prog)
-
 	jobs := *flagJobs
 	if jobs <= 0 {
 		jobs = 16
 	}
-	if jobs > len(hs) {
-		jobs = len(hs)
-	}
-	results := make([]*HarnessRun, len(hs))
-	solverStats := make([]string, len(hs))
-	var solverWall float64
-	var nSat, nUnsat, nUnknown, nErr int
-	var mu sync.Mutex
-	var wg sync.WaitGroup
-	work := make(chan int)
-	for w := 0; w < jobs; w++ {
-		wg.Add(1)
-		go func() {
-			defer wg.Done()
-			for i := range work {
-				h := hs[i]
-				in, err := newInterp(l, *flagTier, *flagTimeout)
-				if err != nil {
-					results[i] = newHarnessRun(h.Name)
-					results[i].Inconclusive = append(results[i].Inconclusive, "cannot start solver: "+err.Error())
-					continue
-				}
-				in.initPkgs = initPkgs
-				in.trace = *flagTrace
-				if *flagMaxPaths > 0 {
-					in.maxPaths = *flagMaxPaths
-				}
-				if *flagSMTLog != "" {
-					f, _ := os.Create(*flagSMTLog)
-					in.solver.log = f
-				}
-				fn := l.pkgs[h.Dir].Func(h.Name)
-				if fn == nil {
-					results[i] = newHarnessRun(h.Name)
-					results[i].Inconclusive = append(results[i].Inconclusive, "harness function not found in SSA")
-					continue
-				}
-				hstart := time.Now()
-				results[i] = in.runHarness(fn, h.Name)
-				in.solver.Close()
-				mu.Lock()
-				solverWall += in.solver.wall.Seconds()
-				nSat += in.solver.nSat
-				nUnsat += in.solver.nUnsat
-				nUnknown += in.solver.nUnknown
-				nErr += in.solver.nErr
-				solverStats[i] = fmt.Sprintf("%s: paths=%d steps=%d obligations=%d discharged=%d violations=%d queries(sat=%d unsat=%d unknown=%d) solver=%.1fs wall=%.1fs",
-					h.Name, results[i].Paths, results[i].Steps, results[i].Obligations, results[i].Discharged, len(results[i].Violations),
-					in.solver.nSat, in.solver.nUnsat, in.solver.nUnknown, in.solver.wall.Seconds(), time.Since(hstart).Seconds())
-				mu.Unlock()
-				fmt.Fprintln(os.Stderr, solverStats[i])
-			}
-		}()
-	}
-	for i := range hs {
-		work <- i
-	}
-	close(work)
-	wg.Wait()
+	results, solverStats, tot := runAll(l, hs, jobs)
+	solverWall := tot.wall
+	nSat, nUnsat, nUnknown, nErr := tot.sat, tot.unsat, tot.unknown, tot.err
 
 	// ---- triage violations: known findings, native replay
 	findings := loadFindings(verif)
